@@ -264,6 +264,10 @@ fn sorted_segment_probe(a: &[String]) -> tantivy::Result<bool> {
 }
 
 mod probe_bg_merge;
+mod probe_optional_threshold;
+mod probe_run_groups;
+mod probe_temp_store;
+mod probe_two_field_conjunction;
 mod probe_lock_race;
 mod probe_union_freqless;
 mod probe_update_merge;
@@ -279,6 +283,18 @@ fn main() -> tantivy::Result<()> {
             }
             "single_writer_under_racing_creations" => {
                 std::panic::catch_unwind(|| matches!(probe_lock_race::run(), Ok(()))).unwrap_or(false)
+            }
+            "optional_index_block_at_dense_threshold" => {
+                std::panic::catch_unwind(|| matches!(probe_optional_threshold::run(), Ok(()))).unwrap_or(false)
+            }
+            "no_temp_docstore_after_gc_on_sorted_index" => {
+                std::panic::catch_unwind(|| matches!(probe_temp_store::run(), Ok(()))).unwrap_or(false)
+            }
+            "two_field_conjunction_scores" => {
+                std::panic::catch_unwind(|| matches!(probe_two_field_conjunction::run(), Ok(()))).unwrap_or(false)
+            }
+            "run_groups_survive_memory_cut" => {
+                std::panic::catch_unwind(|| matches!(probe_run_groups::run(), Ok(()))).unwrap_or(false)
             }
             "topk_union_with_freqless_term" => {
                 std::panic::catch_unwind(|| matches!(probe_union_freqless::run(), Ok(()))).unwrap_or(false)
